@@ -37,6 +37,25 @@ fn main() {
             }
             0
         }
+        "debug-case" => {
+            // cvx debug-case <check> <tier> <family> <index>: print the program and both outcomes
+            let fams = checks::families_of(&args[2], Tier::parse(&args[3]).unwrap_or(Tier::Quick));
+            let fam = fams.iter().find(|f| f.name() == args[4]).expect("family");
+            let idx: u64 = args[5].parse().unwrap();
+            let m = fam.case(idx);
+            println!("{}", cvx_core::shrink::render(&m));
+            println!("region: {:?}", cvx_core::region::check_module(&m, cvx_core::region::RegionOpts { inline_array: true }));
+            let natives = cvx_core::refsem::default_natives();
+            let exp = cvx_core::refsem::run_reference(&m, &natives);
+            println!("reference: {} undefined={:?}\n  globals {:?}\n  log {:?}", exp.result, exp.undefined, exp.globals, exp.log);
+            let (co, prog) = realrun::compile_real(&m);
+            println!("compile: {:?}", co);
+            if let Some(p) = prog {
+                let got = realrun::run_program(&m, &p, &natives, &fam.cfg(idx).as_ref().map(realrun::RunCfg::from).unwrap_or_default());
+                println!("real: {} panic={:?}\n  globals {:?}\n  log {:?}\n  trace {:?}", got.result, got.panic, got.globals, got.log, got.trace);
+            }
+            0
+        }
         "list" => {
             for c in checks::registry() {
                 println!("{}", c.id());
